@@ -24,10 +24,11 @@ import (
 
 const schemaText = `directive @goField(forceResolver: Boolean, name: String, omittable: Boolean) on INPUT_FIELD_DEFINITION | FIELD_DEFINITION
 enum Color { RED GREEN BLUE }
+scalar Fragile
 input Inner { n: Int s: String = "dflt" req: Int! }
-input In { a: Int b: String inner: Inner list: [Int!] color: Color = GREEN wd: Int = 7 nested: [[Int!]!] flag: Boolean }
+input In { a: Int b: String inner: Inner list: [Int!] color: Color = GREEN wd: Int = 7 nested: [[Int!]!] flag: Boolean frs: [Fragile!] }
 type Query {
-  f(i: Int, s: String = "d", req: Int!, l: [Int], ll: [[Int!]!], in: In, ins: [In!], c: Color, id: ID, b: Boolean): String
+  f(i: Int, s: String = "d", req: Int!, l: [Int], ll: [[Int!]!], in: In, ins: [In!], c: Color, id: ID, b: Boolean, fl: [Fragile!], fll: [[Fragile!]!]): String
 }
 `
 
@@ -35,7 +36,8 @@ var schema = gqlparser.MustLoadSchema(&ast.Source{Name: "schema.graphqls", Input
 
 func yaml(extra string) string {
 	return "schema:\n  - schema.graphqls\nexec:\n  filename: graph/generated.go\n  package: graph\nmodel:\n  filename: graph/models_gen.go\n  package: graph\n" +
-		"resolver:\n  layout: follow-schema\n  dir: graph\n  package: graph\n  filename_template: \"{name}.resolvers.go\"\n" + extra
+		"resolver:\n  layout: follow-schema\n  dir: graph\n  package: graph\n  filename_template: \"{name}.resolvers.go\"\n" +
+		"models:\n  Fragile:\n    model: probe/graph.Fragile\n" + extra
 }
 
 var configs = []xeng.Config{
@@ -169,7 +171,7 @@ func avalCoq(v any) string {
 			switch {
 			case strings.HasSuffix(k, "Color"):
 				return "(AEnum " + gen.Str(val.(string)) + ")"
-			case k == "string":
+			case k == "string" || strings.HasSuffix(k, "Fragile"):
 				return "(AStr " + gen.Str(val.(string)) + ")"
 			case k == "bool":
 				return "(ABool " + gen.Bool(val.(bool)) + ")"
@@ -231,7 +233,7 @@ func (g *genCtx) literal(t *ast.Type, depth int) string {
 		if g.r.Chance(1, 4) && depth < 3 {
 			return g.literal(t.Elem, depth+1) // single value where a list is expected
 		}
-		n := g.r.Intn(3)
+		n := g.r.Intn(4)
 		var items []string
 		for i := 0; i < n; i++ {
 			e := g.literal(t.Elem, depth+1)
@@ -273,6 +275,9 @@ func (g *genCtx) literal(t *ast.Type, depth int) string {
 		return gen.Pick(g.r, []string{"RED", "GREEN", "BLUE"})
 	case "ID":
 		return gen.Pick(g.r, []string{`"x1"`, `7`, `"007"`})
+	case "Fragile":
+		// a user scalar whose unmarshaler refuses "bad": the one failure validation cannot see
+		return gen.Pick(g.r, []string{`"ok"`, `"fine"`, `"ok"`, `"bad"`})
 	}
 	return gen.Pick(g.r, []string{`"s"`, `""`, `"with space"`, `"5"`})
 }
@@ -286,7 +291,7 @@ func (g *genCtx) jsonValue(t *ast.Type, depth int) any {
 			return g.jsonValue(t.Elem, depth+1)
 		}
 		out := []any{}
-		for i := g.r.Intn(3); i > 0; i-- {
+		for i := g.r.Intn(4); i > 0; i-- {
 			e := g.jsonValue(t.Elem, depth+1)
 			if e == nil && t.Elem.NonNull {
 				e = 1
@@ -316,6 +321,8 @@ func (g *genCtx) jsonValue(t *ast.Type, depth int) any {
 		return gen.Pick(g.r, []string{"RED", "GREEN", "BLUE"})
 	case "ID":
 		return gen.Pick(g.r, []any{"x1", 7, "007"})
+	case "Fragile":
+		return gen.Pick(g.r, []string{"ok", "fine", "ok", "bad"})
 	}
 	return gen.Pick(g.r, []string{"s", "", "with space"})
 }
